@@ -23,6 +23,12 @@ PID = "C14"
 MODS = ["acryo._utils", "acryo.molecules._rotation", "acryo.molecules.core", "acryo.simulator"]
 
 
+def _real_ndi():
+    import scipy.ndimage
+
+    return scipy.ndimage
+
+
 def zr(x):
     return _real(lift(_coerce(x)))
 
@@ -294,7 +300,7 @@ def sec_fragments(rec, two_d=False, patches=None):
         return f
 
     S.affine_transform = fake_affine
-    S.spline_filter = lambda img, order=3, mode="constant", **k: img
+    S.spline_filter = stubs.like(_real_ndi().spline_filter, lambda img, order=3, *a, **k: img)
     real_sum = S.np.sum
 
     class NPX:
@@ -484,9 +490,9 @@ def sec_history(rec, patches=None):
         return np.zeros((3, 3, 3), dtype=np.float32)
 
     S.affine_transform = fake_affine
-    S.spline_filter = lambda img, order=3, mode="constant", **k: Img(("filtered", getattr(img, "tag", None), order))
+    S.spline_filter = stubs.like(_real_ndi().spline_filter, lambda img, order=3, *a, **k: Img(("filtered", getattr(img, "tag", None), order)))
     # where the fragment goes is decided in the other sections: here the placement is fixed so that only the provenance of the template varies
-    S._prep_iterators = lambda mol, shape, scale: (np.array([[10, 10, 10]], dtype=np.int32), np.array([[13, 13, 13]], dtype=np.int32), [np.eye(4, dtype=np.float32)])
+    S._prep_iterators = lambda *a, **k: (np.array([[10, 10, 10]], dtype=np.int32), np.array([[13, 13, 13]], dtype=np.int32), [np.eye(4, dtype=np.float32)])
     s1, s2 = real("scale"), real("scale2")
     hyps = [s1.e > 0, s2.e > 0, s1.e != s2.e]
     P = [[5, 5, 5]]
